@@ -69,3 +69,4 @@ CHECK["assumptions"] = ENUMX_ASSUME + [
     "signature_aggregate / node_signatures on the non-Safe sizes fixtures (three positions per leaf there)",
     "(c): exactly one deviating copy per run (or all copies equal); --no-verify runs with deviating copies are not judged; the bad share is always validator 0's",
 ]
+CHECK["claim"] += " Fifth session (after the rebuild): HISTORY dimension of part (b) - every alteration that is rejected by hash or signature right after decoding is judged again after the decoded object has been JSON-encoded once (must stay rejected); in the round-trip scenario an edited and encoded struct copy of the decoded definition must leave the original's hashes intact; IN-MEMORY dimension - every validator's fee-recipient and withdrawal address altered, one at a time, on the decoded object of every version (VerifyHashes must fail)."
